@@ -471,6 +471,12 @@ class Types:
         if name.startswith('Oomd::'):
             # class template instantiation inside Oomd (e.g. KillPgScan<BaseKillPlugin>)
             return self.oomd_type(name)
+        cands = set(k[:-len('<spec>')] if k.endswith('<spec>') else k for k in self.index.records
+                    if (k[:-len('<spec>')] if k.endswith('<spec>') else k).endswith('::' + name))
+        if len(cands) == 1:
+            return self.oomd_type(cands.pop())
+        if name in ('PluginRegistry',):
+            return self.note('PluginRegistry', 'handle')
         raise Unsupported('unknown template type %r' % t)
 
     def oomd_type(self, q):
